@@ -37,7 +37,8 @@ TrReset ==
   /\ l = t0 /\ IsEv("reset")
   /\ role' = E.role /\ bits' = ToSet(E.initbits)
   /\ prog' = [p \in Procs |-> ProgOf(E, p)]
-  /\ UNCHANGED <<result, ncur, refused, addr, estab, cur, lock, wire, rets, sv, pvars, cvars, handled, deadline, fvars>>
+  /\ addr' = [local |-> E.local0, remote |-> E.remote0]     \* what the caller of NewSession supplied ("none": learnt later)
+  /\ UNCHANGED <<result, ncur, refused, estab, cur, lock, wire, rets, sv, pvars, cvars, handled, deadline, fvars>>
 
 (* ------------------------------- negotiating ---------------------------------- *)
 TrNegotiate == IsEv("negotiate") /\ ToSet(E.bits) = bits /\ NegCall(E.f)
@@ -169,6 +170,7 @@ TNext ==
   /\ (l > t0 => bits \subseteq bits' /\ Phase' \in PhaseSucc(Phase))          \* X_BitsMonotone, X_PhaseOrder
   /\ (handled' # handled => "Ready" \in bits \/ "ServeUnready" \in Dev)        \* X_ReadyBeforeHandler
   /\ (refused /\ ncur # "none" /\ ncur' = "none" => result' = "err")            \* X_RefusalNotReady
+  /\ (l > t0 /\ addr.remote # "none" => addr'.remote = addr.remote)             \* X_RemoteStable
 
 TSpec == TInit /\ [][TNext]_tvars
 HW == TLCSet(t0, IF TLCGet(t0) < l THEN l ELSE TLCGet(t0))
